@@ -12,6 +12,7 @@ import (
 func init() { register("C01", checkC01) }
 
 func checkC01(c *Ctx, r *Report, tier string) {
+	round5(c, r, "C01")
 	x := newIdx(c)
 	r.Rule("C01.R1", "tombstone filter on every candidate flow: every use of the key of a `range` over an edge set is the liveness test itself or is dominated by the live successor of such a test on the same key (exception: a key collected only to be unlinked/re-pruned)", 4)
 	r.Rule("C01.R2", "entry point hand-over: on the branch where the loaded entry point equals the removed vertex every path to return passes a CAS/Store into the entry point", 1)
@@ -81,7 +82,12 @@ func c01R1(c *Ctx, r *Report, x *idxInfo) {
 			}
 			if st, ok := u.(*ssa.Store); ok && st.Val == via {
 				if ia, ok := st.Addr.(*ssa.IndexAddr); ok {
-					collected = append(collected, ia.X)
+					if fam := appendFamily(ia.X); len(fam) > 0 {
+						// `s = append(s, key)`: the element goes into the slice that the append chain builds
+						collected = append(collected, fam...)
+					} else {
+						collected = append(collected, ia.X)
+					}
 					bad = append(bad, "stored into a slice element at "+c.InstrPos(u))
 					return
 				}
@@ -135,10 +141,21 @@ func collectedOnlyUnlinked(c *Ctx, x *idxInfo, fn *ssa.Function, slices []ssa.Va
 					}
 				}
 			case *ssa.Call:
-				if id := callID(&u.Call); id.Pkg == "builtin" && id.Name == "len" {
+				if id := callID(&u.Call); id.Pkg == "builtin" && (id.Name == "len" || id.Name == "cap") {
 					continue
 				}
+				if inFamily(slices, u) {
+					continue // the next append of the same chain
+				}
 				ok = false
+			case *ssa.Phi:
+				if !inFamily(slices, u) {
+					ok = false
+				}
+			case *ssa.Slice:
+				if !inFamily(slices, u) {
+					ok = false
+				}
 			case *ssa.DebugRef:
 			default:
 				ok = false
@@ -740,8 +757,34 @@ func filledInOrder(c *Ctx, f *ssa.Function, ms *ssa.MakeSlice) (bool, string) {
 	if idx == nil || popRecv == nil {
 		return false, "cannot find the fill loop (index store + Pop) of the result slice"
 	}
-	ph, ok := idx.(*ssa.Phi)
-	if !ok || len(ph.Edges) != 2 {
+	// the index is a loop counter, or an expression in which the counter occurs once with coefficient +1 / -1
+	// (result[n-1-filled] with an ascending counter fills downwards)
+	var ph *ssa.Phi
+	var sign func(v ssa.Value, d int) int
+	sign = func(v ssa.Value, d int) int {
+		v = strip(v)
+		if p, isP := v.(*ssa.Phi); isP && len(p.Edges) == 2 {
+			ph = p
+			return +1
+		}
+		if b, isB := v.(*ssa.BinOp); isB && d < 4 {
+			switch b.Op {
+			case token.ADD:
+				if s := sign(b.X, d+1); s != 0 {
+					return s
+				}
+				return sign(b.Y, d+1)
+			case token.SUB:
+				if s := sign(b.X, d+1); s != 0 {
+					return s
+				}
+				return -sign(b.Y, d+1)
+			}
+		}
+		return 0
+	}
+	coef := sign(idx, 0)
+	if coef == 0 || ph == nil {
 		return false, "fill index is not a simple loop counter"
 	}
 	dir := 0
@@ -759,6 +802,7 @@ func filledInOrder(c *Ctx, f *ssa.Function, ms *ssa.MakeSlice) (bool, string) {
 	if dir == 0 {
 		return false, "fill index is not stepped by ±1"
 	}
+	dir *= coef
 	kinds := queueKinds(popRecv, 3)
 	if len(kinds) == 0 {
 		return false, "cannot determine whether the popped queue is a min- or a max-queue"
@@ -942,4 +986,75 @@ func eachConvUse(v ssa.Value, f func(user ssa.Instruction, via ssa.Value)) {
 		}
 	}
 	walk(v)
+}
+
+func inFamily(fam []ssa.Value, v ssa.Value) bool {
+	for _, f := range fam {
+		if f == v {
+			return true
+		}
+	}
+	return false
+}
+
+// appendFamily: arr is the one-element varargs array of an `append(s, x)`; the result is every value of the chain that
+// builds the slice (the append results, the φ they feed, the initial slice), or nil if arr is not such an array.
+func appendFamily(arr ssa.Value) []ssa.Value {
+	al, ok := arr.(*ssa.Alloc)
+	if !ok || al.Referrers() == nil {
+		return nil
+	}
+	var app *ssa.Call
+	var sl *ssa.Slice
+	for _, r := range *al.Referrers() {
+		if s, isS := r.(*ssa.Slice); isS && s.Referrers() != nil {
+			for _, rr := range *s.Referrers() {
+				if cl, isC := rr.(*ssa.Call); isC && callID(&cl.Call).is("builtin", "", "append") && len(cl.Call.Args) == 2 && cl.Call.Args[1] == ssa.Value(s) {
+					app, sl = cl, s
+				}
+			}
+		}
+	}
+	if app == nil {
+		return nil
+	}
+	seen := map[ssa.Value]bool{}
+	var out []ssa.Value
+	var add func(v ssa.Value)
+	add = func(v ssa.Value) {
+		if v == nil || seen[v] {
+			return
+		}
+		seen[v] = true
+		out = append(out, v)
+		switch y := v.(type) {
+		case *ssa.Phi:
+			for _, e := range y.Edges {
+				add(e)
+			}
+		case *ssa.Call:
+			if callID(&y.Call).is("builtin", "", "append") {
+				add(y.Call.Args[0])
+			} else {
+				return
+			}
+		case *ssa.MakeSlice, *ssa.Slice:
+		default:
+			return
+		}
+		if v.Referrers() != nil {
+			for _, r := range *v.Referrers() {
+				if p, isP := r.(*ssa.Phi); isP {
+					add(p)
+				}
+				if cl, isC := r.(*ssa.Call); isC && callID(&cl.Call).is("builtin", "", "append") && cl.Call.Args[0] == v {
+					add(cl)
+				}
+			}
+		}
+	}
+	add(app)
+	// the varargs slice itself is part of the chain only as the argument of its append
+	_ = sl
+	return out
 }
